@@ -14,7 +14,7 @@ LEVEL = "exploration"
 RULE = ("Operation histories on RuleImputeManager started from an empty database and from each shipped database "
         "(rules_manager, automated_rules; de-duplicated by first occurrence, the shipped records themselves being "
         "checked once as they are): add_entry / add_entries / remove_entry over an alphabet of valid, invalid, "
-        "duplicate-formula, duplicate-SMILES, charged, Z>86 and other-spelling compounds (plus formulas/SMILES taken "
+        "duplicate-formula, duplicate-SMILES, charged, Z>86, other-spelling and case-/blank-variant-formula compounds (plus formulas/SMILES taken "
         "from the starting database). Exhaustive over ALL histories of length <=3 on the fixed alphabet for the empty "
         "start (length <=2 for the shipped starts), Hypothesis histories up to length 30 with drawn compounds, and a "
         "hypothesis.stateful RuleBasedStateMachine. Model = ordered list of (formula, SMILES). Invariant after every "
@@ -32,7 +32,10 @@ ALPHABET = [
     ("H2O", "O"), ("CO2", "O=C=O"), ("H4N+", "[NH4+]"), ("Cl-", "[Cl-]"), ("C2H6O", "CCO"), ("EtOH", "OCC"),
     ("U", "[U]"), ("SO4^2-", "[O-]S(=O)(=O)[O-]"), ("bad", "C1CC"), ("bad2", "xx"), ("H2O", "[OH2]"), ("water", "O"),
     ("D2O", "[2H]O[2H]"), ("Pu3+", "[Pu+3]"),
+    # formulas that differ only in letter case / blanks are different names (carbon monoxide vs cobalt)
+    ("CO", "[C-]#[O+]"), ("Co", "[Co]"),
 ]
+REMOVE_EXTRA = ["co", "h2o", " H2O", "H2O ", "Hf", "cl-"]
 
 
 def shipped(name):
@@ -177,7 +180,7 @@ def op_alphabet(start):
         extra = [(db[0]["formula"], "CCCC"), ("newf", db[1]["smiles"]), (db[2]["formula"], db[2]["smiles"])]
     for f, s in ALPHABET + extra:
         ops.append(["add", f, s])
-    forms = sorted({f for f, _ in ALPHABET + extra}) + ["absent"]
+    forms = sorted({f for f, _ in ALPHABET + extra}) + ["absent"] + REMOVE_EXTRA
     for f in forms:
         ops.append(["remove", f])
     ops.append(["bulk", [list(x) for x in ALPHABET[:5]]])
@@ -190,8 +193,8 @@ def history_case(draw):
     start = draw(st.sampled_from(["empty", "empty", "rules_manager", "automated_rules"]))
     mol = st.one_of(st.sampled_from([s for _, s in ALPHABET]), gen.molecule(True, 12, True),
                     st.sampled_from(["C1CC", "xx", "", "C(C)(C)(C)(C)C"]))
-    formula = st.one_of(st.sampled_from([f for f, _ in ALPHABET] + ["X1", "X2", "X3", "Cl2", "H3N", "NH3"]),
-                        st.text("CHONa+-0123456789", min_size=1, max_size=5))
+    formula = st.one_of(st.sampled_from([f for f, _ in ALPHABET] + ["X1", "X2", "X3", "Cl2", "H3N", "NH3"] + REMOVE_EXTRA),
+                        st.text("CHONacho +-0123456789", min_size=1, max_size=5))
     entry = st.tuples(formula, mol).map(list)
     op = st.one_of(
         st.tuples(st.just("add"), formula, mol).map(list),
@@ -270,7 +273,7 @@ def _stateful(spec, seed, shard):
             got = self.mgr.add_entries([{"formula": c[0], "smiles": c[1]} for c in cs])
             assert got == exp, ("bulk report", self.trace, got, exp)
 
-        @rule(f=st.sampled_from(sorted({f for f, _ in ALPHABET}) + ["absent", "Cl2", "H3N"]))
+        @rule(f=st.sampled_from(sorted({f for f, _ in ALPHABET}) + ["absent", "Cl2", "H3N"] + REMOVE_EXTRA))
         def remove(self, f):
             self.trace.append(["remove", f])
             idx = next((j for j, m in enumerate(self.model) if m[0] == f), None)
